@@ -4,6 +4,9 @@
 //   pos   one accessor call on a StringReader over n bytes (exactly-sized heap block, so ASan sees the first byte
 //         past the end) with (offset, size) from the boundary grid; cursor accessors are preceded by go(offset)
 //   hist  cursor histories: up to 30 accessor calls incl. go()/truncate() on one reader, model of cursor and length
+//   both: the reader is built by any of the six constructor forms (pointer+size / const std::string& / shared_ptr<string>,
+//         each with and without the initial-offset argument), and a history may step into a sub-reader it has just taken
+//         (sub/subx of a sub of a ...): the model then tracks the absolute window inside the original data
 //   bw    BufferWriter over a guarded buffer: pwrite / write / put_* / pput_* with boundary offsets and sizes
 //   sw    StringWriter: appends and pput_* at offsets <= 4096 or >= 2^63 (grow zero-filled, or throw)
 //
@@ -39,7 +42,13 @@ enum Acc : uint64_t {
   A_LAST_PLAIN = A_GET_T,
   A_TYPED_PGET = 100, // + k: pget_<k>(a = offset)
   A_TYPED_GET = 200, // + k: get_<k>(advance = a & 1)
+  // + k (0 subx(off,size), 1 subx(off), 2 sub(off,size), 3 sub(off)): the same call and checks as the plain accessor, and when it
+  // returned a reader the history continues ON THAT SUB-READER (a = offset, b = size)
+  A_DESCEND = 300,
 };
+static const uint64_t kDescendAcc[4] = {A_SUBX2, A_SUBX1, A_SUB2, A_SUB1};
+enum Ctor : uint64_t { C_POINTER = 0, C_STRING = 1, C_SHARED = 2 };
+static const char* kCtorName[3] = {"(pointer,size)", "(const std::string&)", "(shared_ptr<string>)"};
 static const char* kAccName[28] = {"go", "pgetv", "preadx", "preadx(void*)", "subx(off,size)", "subx_bits(off,size)", "subx(off)", "subx_bits(off)",
     "pread", "pread(void*)", "sub(off,size)", "sub_bits(off,size)", "sub(off)", "sub_bits(off)", "pget_cstr", "pget<T>(off,size)",
     "getv", "peek", "read", "readx", "read(void*)", "readx(void*)", "skip", "skip_if", "get_line", "get_cstr", "truncate", "get<T>(adv,size)"};
@@ -61,6 +70,7 @@ static uint64_t typed_pget(const StringReader& r, unsigned k, size_t off) { retu
 static uint64_t typed_get(StringReader& r, unsigned k, bool adv) { return k < 18 ? call_get(r, kTyped[k].type, kTyped[k].big, adv) : wide_get(r, k - 18, adv); }
 
 static std::string acc_name(uint64_t acc) {
+  if (acc >= A_DESCEND && acc < A_DESCEND + 4) return cat("into:", kAccName[kDescendAcc[acc - A_DESCEND]]);
   if (acc <= A_LAST_PLAIN) return kAccName[acc];
   if (acc >= A_TYPED_GET && acc < A_TYPED_GET + kTypedCount) return "get_" + typed_name(acc - A_TYPED_GET);
   if (acc >= A_TYPED_PGET && acc < A_TYPED_PGET + kTypedCount) return "pget_" + typed_name(acc - A_TYPED_PGET);
@@ -92,16 +102,24 @@ static std::vector<uint8_t> make_data(size_t len, uint64_t seed, bool text) {
 }
 
 struct State {
-  std::vector<uint8_t> d; // model copy of the bytes
-  std::unique_ptr<uint8_t[]> blk;
+  std::vector<uint8_t> d; // model copy of the bytes the root reader was built over
+  std::unique_ptr<uint8_t[]> blk; // storage for the (pointer, size) constructor
+  std::string str; // ... for the const std::string& constructor
+  std::shared_ptr<std::string> shared; // ... for the shared_ptr<string> constructor
+  const uint8_t* base0 = nullptr; // first byte of the storage
+  bool base_known = true; // false once the history stepped into an empty reader returned by a clamping sub(): where that one points is not specified
+  size_t win = 0; // where the current reader's window starts inside d (non-zero only after stepping into sub-readers)
+  unsigned depth = 0;
   size_t n; // current length (truncate shortens it)
   uint64_t cur = 0;
   std::unique_ptr<StringReader> r;
   bool interesting = false;
 };
 
+// the model bytes of the current reader's window
+static const uint8_t* md(const State& st) { return st.d.data() + st.win; }
 static std::string slice(const State& st, uint64_t off, uint64_t len) {
-  return std::string(reinterpret_cast<const char*>(st.d.data()) + off, len);
+  return std::string(reinterpret_cast<const char*>(md(st)) + off, len);
 }
 static std::string bit_reader_bytes(BitReader& br) {
   std::string out;
@@ -116,13 +134,19 @@ static std::string accept_sig(uint64_t off, uint64_t size, const std::string& na
 
 static void apply_op(State& st, uint64_t acc, uint64_t a, uint64_t b, size_t opidx) {
   StringReader& r = *st.r;
-  const std::string name = acc_name(acc);
+  const bool descend = acc >= A_DESCEND && acc < A_DESCEND + 4;
+  if (descend) acc = kDescendAcc[acc - A_DESCEND];
+  const std::string name = acc_name(acc); // signatures name the accessor, whether or not the history steps into its result
+  bool stepped = false; // the call returned a sub-reader to continue on
+  StringReader next;
+  uint64_t next_off = 0, next_len = 0;
+  bool next_base_known = true;
   const uint64_t n = st.n, c = st.cur;
   const bool sane = c <= n;
   uint64_t exp_cur = c;
   bool check_cur = true;
-  const uint8_t* base = st.blk.get();
-  auto ctxt = [&]() { return cat(" [op #", opidx, " ", name, " a=", a, " b=", b, " n=", n, " cursor=", c, "]"); };
+  const uint8_t* base = st.base0 + st.win;
+  auto ctxt = [&]() { return cat(" [op #", opidx, " ", name, " a=", a, " b=", b, " n=", n, " cursor=", c, descend ? " (the history continues in the returned reader)" : "", st.depth ? cat(" sub-reader depth ", st.depth, " window start ", st.win) : std::string(), "]"); };
 
   auto must_throw = [&](Outcome o, uint64_t off, uint64_t size) {
     VCHECK(o == THREW_OOR, accept_sig(off, size, name), name, " accepted offset ", off, " size ", size, " on ", n, " bytes", ctxt());
@@ -149,7 +173,7 @@ static void apply_op(State& st, uint64_t acc, uint64_t a, uint64_t b, size_t opi
         Outcome o = attempt([&] { p = r.pgetv(off, size); }, name);
         if (fits(off, size, n)) {
           must_return(o, off, size);
-          VCHECK(p == base + off, "pgetv-pointer", "pgetv returned a pointer ", (reinterpret_cast<const uint8_t*>(p) - base), " bytes from the start", ctxt());
+          VCHECK(!st.base_known || p == base + off, "pgetv-pointer", "pgetv returned a pointer ", (reinterpret_cast<const uint8_t*>(p) - base), " bytes from the start", ctxt());
         } else must_throw(o, off, size);
         break;
       }
@@ -162,7 +186,7 @@ static void apply_op(State& st, uint64_t acc, uint64_t a, uint64_t b, size_t opi
         }, name);
         if (fits(off, size, n)) {
           must_return(o, off, size);
-          VCHECK(v == ref_decode(st.d.data() + off, 2, true, false), "value:pget<T>", "wrong value", ctxt());
+          VCHECK(v == ref_decode(md(st) + off, 2, true, false), "value:pget<T>", "wrong value", ctxt());
         } else must_throw(o, off, size);
         break;
       }
@@ -196,6 +220,12 @@ static void apply_op(State& st, uint64_t acc, uint64_t a, uint64_t b, size_t opi
           must_return(o, off, two ? size : 0);
           VCHECK(sub.size() == len && sub.where() == 0, cat("sub-extent:", name), "sub-reader has size ", sub.size(), " expected ", len, ctxt());
           VCHECK(sub.all() == slice(st, off, len) && sub.pread(0, SIZE_MAX) == slice(st, off, len), cat("slice:", name), "sub-reader content differs", ctxt());
+          if (descend) {
+            stepped = true;
+            next = sub;
+            next_off = off;
+            next_len = len;
+          }
         } else must_throw(o, off, two ? size : 0);
         break;
       }
@@ -241,6 +271,13 @@ static void apply_op(State& st, uint64_t acc, uint64_t a, uint64_t b, size_t opi
         VCHECK(o == RETURNED, cat("clamping-throws:", name), name, " threw out_of_range", ctxt());
         VCHECK(sub.size() == len && sub.where() == 0, cat(two && wraps(off, size) ? "wrap-clamp:" : "clamp:", name), "sub-reader has size ", sub.size(), ", the in-range part has ", len, ctxt());
         VCHECK(sub.all() == slice(st, len ? off : 0, len) && sub.pread(0, SIZE_MAX) == sub.all(), cat("slice:", name), "sub-reader content differs", ctxt());
+        if (descend) {
+          stepped = true;
+          next = sub;
+          next_off = off <= n ? off : 0;
+          next_len = len;
+          next_base_known = len > 0; // where the empty reader that a clamping form returns points to is not specified
+        }
         break;
       }
       case A_SUBBITS2:
@@ -258,7 +295,7 @@ static void apply_op(State& st, uint64_t acc, uint64_t a, uint64_t b, size_t opi
         std::string s;
         Outcome o = attempt([&] { s = r.pget_cstr(off); }, name);
         uint64_t z = off;
-        while (z < n && st.d[z] != 0) z++;
+        while (z < n && md(st)[z] != 0) z++;
         if (off < n && z < n) {
           VCHECK(o == RETURNED, "in-range-throws:pget_cstr", "pget_cstr threw although a NUL follows at ", z, ctxt());
           VCHECK(s == slice(st, off, z - off), "slice:pget_cstr", "pget_cstr returned ", hex(s), ctxt());
@@ -277,7 +314,7 @@ static void apply_op(State& st, uint64_t acc, uint64_t a, uint64_t b, size_t opi
     Outcome o = attempt([&] { v = typed_pget(r, k, off); }, name);
     if (fits(off, w, n)) {
       must_return(o, off, w);
-      VCHECK(v == typed_expect(st.d.data() + off, k), cat("value:", name), name, "(", off, ") returned ", v, ctxt());
+      VCHECK(v == typed_expect(md(st) + off, k), cat("value:", name), name, "(", off, ") returned ", v, ctxt());
     } else must_throw(o, off, w);
   } else if (acc >= A_TYPED_GET && acc < A_TYPED_GET + kTypedCount) {
     unsigned k = acc - A_TYPED_GET, w = typed_width(k);
@@ -289,7 +326,7 @@ static void apply_op(State& st, uint64_t acc, uint64_t a, uint64_t b, size_t opi
     Outcome o = attempt([&] { v = typed_get(r, k, adv); }, name);
     if (fits(c, w, n)) {
       must_return(o, c, w);
-      VCHECK(v == typed_expect(st.d.data() + c, k), cat("value:", name), name, " at ", c, " returned ", v, ctxt());
+      VCHECK(v == typed_expect(md(st) + c, k), cat("value:", name), name, " at ", c, " returned ", v, ctxt());
       if (adv) exp_cur = c + w;
     } else must_throw(o, c, w);
   } else if (acc >= A_GETV && acc <= A_GET_T) {
@@ -306,7 +343,7 @@ static void apply_op(State& st, uint64_t acc, uint64_t a, uint64_t b, size_t opi
         Outcome o = attempt([&] { p = (acc == A_PEEK) ? static_cast<const void*>(r.peek(size)) : r.getv(size, adv); }, name);
         if (fits(c, size, n)) {
           must_return(o, c, size);
-          VCHECK(p == base + c, cat("pointer:", name), name, " returned a pointer ", (reinterpret_cast<const uint8_t*>(p) - base), " bytes from the start", ctxt());
+          VCHECK(!st.base_known || p == base + c, cat("pointer:", name), name, " returned a pointer ", (reinterpret_cast<const uint8_t*>(p) - base), " bytes from the start", ctxt());
           if (adv) exp_cur = c + size;
         } else must_throw(o, c, size);
         break;
@@ -320,7 +357,7 @@ static void apply_op(State& st, uint64_t acc, uint64_t a, uint64_t b, size_t opi
         }, name);
         if (fits(c, size, n)) {
           must_return(o, c, size);
-          VCHECK(v == ref_decode(st.d.data() + c, 2, true, false), "value:get<T>", "wrong value", ctxt());
+          VCHECK(v == ref_decode(md(st) + c, 2, true, false), "value:get<T>", "wrong value", ctxt());
           if (adv) exp_cur = c + size;
         } else must_throw(o, c, size);
         break;
@@ -380,7 +417,7 @@ static void apply_op(State& st, uint64_t acc, uint64_t a, uint64_t b, size_t opi
         bool in = fits(c, size, n);
         size_t cap = in ? size : std::min<uint64_t>(size, n + 1);
         std::unique_ptr<uint8_t[]> pat(new uint8_t[cap]);
-        for (size_t i = 0; i < cap; i++) pat[i] = (c <= n && c + i < st.d.size()) ? st.d[c + i] : 0x5A;
+        for (size_t i = 0; i < cap; i++) pat[i] = (c <= n && st.win + c + i < st.d.size()) ? st.d[st.win + c + i] : 0x5A;
         bool match = in && ((b & 1) || size == 0);
         if (in && !match) pat[size - 1] ^= 0x40;
         bool ret = false;
@@ -399,7 +436,7 @@ static void apply_op(State& st, uint64_t acc, uint64_t a, uint64_t b, size_t opi
         Outcome o = attempt([&] { s = r.get_line(adv); }, name);
         if (c < n) {
           uint64_t z = c;
-          while (z < n && st.d[z] != '\n') z++;
+          while (z < n && md(st)[z] != '\n') z++;
           std::string expect = slice(st, c, z - c);
           if (!expect.empty() && expect.back() == '\r') expect.pop_back();
           VCHECK(o == RETURNED, "in-range-throws:get_line", "get_line threw with data remaining", ctxt());
@@ -415,7 +452,7 @@ static void apply_op(State& st, uint64_t acc, uint64_t a, uint64_t b, size_t opi
         std::string s;
         Outcome o = attempt([&] { s = r.get_cstr(adv); }, name);
         uint64_t z = c;
-        while (z < n && st.d[z] != 0) z++;
+        while (z < n && md(st)[z] != 0) z++;
         if (c < n && z < n) {
           VCHECK(o == RETURNED, "in-range-throws:get_cstr", "get_cstr threw although a NUL follows", ctxt());
           VCHECK(s == slice(st, c, z - c), "slice:get_cstr", "get_cstr returned ", hex(s), ctxt());
@@ -462,25 +499,72 @@ static void apply_op(State& st, uint64_t acc, uint64_t a, uint64_t b, size_t opi
   } else {
     VCHECK(r.eof(), "eof-beyond-end", "eof() false with the cursor beyond the end", ctxt());
   }
+  if (stepped) {
+    // the history goes on inside the sub-reader: its window is [win + off, win + off + len) of the original data
+    if (st.depth >= 1 && (st.win > 0 || next_off > 0)) st.interesting = true;
+    ctx().cls(st.depth == 0 ? "nest:sub-reader of the root reader" : (st.win > 0 ? "nest:sub-reader of a sub-reader that starts inside its parent" : "nest:sub-reader of a sub-reader that starts at its parent's first byte"));
+    *st.r = next;
+    st.win += next_off;
+    st.n = next_len;
+    st.cur = 0;
+    st.depth++;
+    if (!next_base_known) st.base_known = false;
+  }
 }
 
-// case: n = [len, seed, flags (bit 0: text alphabet with NUL / LF / CR), then triples (acc, a, b)]
+// case: n = [len, seed, flags, then triples (acc, a, b)]
+//   flags: bit 0: text alphabet with NUL / LF / CR; bits 1-2: constructor (0 pointer+size, 1 const std::string&, 2 shared_ptr<string>);
+//          bit 3: the constructor's initial-offset argument is passed explicitly - its value is the `a` of the first triple when that
+//          is a go() (which the constructor call then replaces), otherwise 0
 static void run_reader_case(const Case& c, bool single) {
   if (c.n.size() < 3 || (c.n.size() - 3) % 3 != 0) throw std::logic_error("malformed case");
-  uint64_t len = c.u(0);
+  uint64_t len = c.u(0), flags = c.u(2);
   if (len > 4096) throw std::logic_error("length outside the generated domain");
+  uint64_t ctor = (flags >> 1) & 3;
+  bool with_offset = (flags >> 3) & 1;
+  if (ctor > C_SHARED || (flags >> 4)) throw std::logic_error("bad flags");
   State st;
-  st.d = make_data(len, c.u(1), c.u(2) & 1);
+  st.d = make_data(len, c.u(1), flags & 1);
   st.n = len;
-  st.blk.reset(new uint8_t[len]);
-  memcpy(st.blk.get(), st.d.data(), len);
-  st.r.reset(new StringReader(st.blk.get(), len));
-  size_t nops = (c.n.size() - 3) / 3;
-  for (size_t k = 0; k < nops; k++) apply_op(st, c.u(3 + 3 * k), c.u(4 + 3 * k), c.u(5 + 3 * k), k);
+  size_t nops = (c.n.size() - 3) / 3, first = 0;
+  uint64_t start = 0;
+  if (with_offset && nops >= 1 && c.u(3) == A_GO) {
+    start = c.u(4);
+    first = 1;
+  }
+  switch (ctor) {
+    case C_POINTER:
+      st.blk.reset(new uint8_t[len]);
+      memcpy(st.blk.get(), st.d.data(), len);
+      st.base0 = st.blk.get();
+      st.r.reset(with_offset ? new StringReader(st.blk.get(), len, start) : new StringReader(st.blk.get(), len));
+      break;
+    case C_STRING:
+      st.str.assign(reinterpret_cast<const char*>(st.d.data()), len);
+      st.base0 = reinterpret_cast<const uint8_t*>(st.str.data());
+      st.r.reset(with_offset ? new StringReader(st.str, start) : new StringReader(st.str));
+      break;
+    default:
+      st.shared = std::make_shared<std::string>(reinterpret_cast<const char*>(st.d.data()), len);
+      st.base0 = reinterpret_cast<const uint8_t*>(st.shared->data());
+      st.r.reset(with_offset ? new StringReader(st.shared, start) : new StringReader(st.shared));
+      break;
+  }
+  ctx().cls(cat("ctor:", kCtorName[ctor], with_offset ? " with offset" : ""));
+  {
+    // what the constructor must have set up: n bytes, the cursor where it was told to be (0 by default)
+    const StringReader& r = *st.r;
+    std::string how = cat("StringReader", kCtorName[ctor], with_offset ? cat(" with offset ", start) : std::string(), " over ", len, " bytes");
+    VCHECK(r.size() == len, cat("ctor-size:", kCtorName[ctor]), how, ": size() is ", r.size());
+    VCHECK(r.where() == start, cat("ctor-cursor:", kCtorName[ctor]), how, ": where() is ", r.where());
+    VCHECK(r.pread(0, SIZE_MAX) == slice(st, 0, len), cat("ctor-content:", kCtorName[ctor]), how, ": pread(0, SIZE_MAX) differs from the data");
+    st.cur = start;
+  }
+  for (size_t k = first; k < nops; k++) apply_op(st, c.u(3 + 3 * k), c.u(4 + 3 * k), c.u(5 + 3 * k), k);
   if (st.interesting) {
     if (single) {
-      // distinct by (accessor, n, offset, size): the data seed does not count
-      uint64_t h = mix(hash_str("pos"), len);
+      // distinct by (constructor, accessor(s), n, offset, size): the data seed does not count
+      uint64_t h = mix(mix(hash_str("pos"), len), flags >> 1);
       for (size_t k = 3; k < c.n.size(); k++) h = mix(h, c.n[k]);
       ctx().nontrivial(h);
     } else {
@@ -703,9 +787,24 @@ static uint64_t gen_arg(uint64_t n) {
   }
 }
 
+// constructor form: half of the cases the (pointer, size) form over an exactly-sized heap block (the one ASan guards best)
+static uint64_t gen_ctor_flags() {
+  uint64_t ctor = vg::coin() ? C_POINTER : (vg::coin() ? C_STRING : C_SHARED);
+  return (ctor << 1) | (vg::chance(1, 3) ? 8 : 0);
+}
+// step into a sub-reader; mostly inside the parent so that the history has something left to read
+static void gen_descend(Case& c, uint64_t n) {
+  uint64_t off = vg::chance(4, 5) ? vg::below(n + 1) : gen_arg(n);
+  uint64_t rest = off <= n ? n - off : 0;
+  uint64_t size = vg::chance(4, 5) ? vg::below(rest + 1) : gen_arg(n);
+  c.N(A_DESCEND + vg::below(4)).N(off).N(size);
+}
+
 static void gen_reader_op(Case& c, uint64_t n) {
   uint64_t pick = vg::below(100);
-  if (pick < 12) {
+  if (pick < 7) {
+    gen_descend(c, n);
+  } else if (pick < 17) {
     c.N(A_GO).N(vg::chance(2, 3) ? vg::below(n + 2) : gen_arg(n)).N(0);
   } else if (pick < 45) {
     c.N(A_PGETV + vg::below(A_PGET_T - A_PGETV + 1)).N(gen_arg(n)).N(gen_arg(n));
@@ -723,7 +822,7 @@ static void gen_reader_op(Case& c, uint64_t n) {
 static Case gen_hist() {
   Case c("hist");
   uint64_t n = vg::chance(1, 10) ? vg::below(3) : vg::below(65);
-  c.N(n).N(vg::u64()).N(vg::below(2));
+  c.N(n).N(vg::u64()).N(vg::below(2) | gen_ctor_flags());
   uint64_t nops = 1 + vg::scaled(29);
   for (uint64_t k = 0; k < nops; k++) gen_reader_op(c, n);
   return c;
@@ -732,7 +831,13 @@ static Case gen_hist() {
 static Case gen_pos() {
   Case c("pos");
   uint64_t n = vg::below(65);
-  c.N(n).N(vg::u64()).N(vg::below(2));
+  c.N(n).N(vg::u64()).N(vg::below(2) | gen_ctor_flags());
+  if (vg::chance(1, 6)) {
+    // the accessor is called on a sub-reader of a sub-reader (the generated arguments stay relative to the root length: the
+    // windows only get shorter, so they still cover inside / at the end / beyond)
+    gen_descend(c, n);
+    if (vg::chance(2, 3)) gen_descend(c, n);
+  }
   uint64_t pick = vg::below(100);
   if (pick < 45) {
     c.N(A_PGETV + vg::below(A_PGET_T - A_PGETV + 1)).N(gen_arg(n)).N(gen_arg(n));
@@ -852,8 +957,53 @@ static void enum_pos(Enum& e) {
       }
     }
   }
+  // the other constructor forms: every accessor on a reader built by each of the six forms, (offset, size) from a reduced set
+  for (uint64_t n = 0; n <= 8 && !e.stop; n++) {
+    std::vector<uint64_t> rs = {0, 1, n, n + 1, 0 - 1ULL};
+    if (n >= 1) rs.push_back(n - 1);
+    std::sort(rs.begin(), rs.end());
+    rs.erase(std::unique(rs.begin(), rs.end()), rs.end());
+    for (uint64_t form = 1; form < 6; form++) { // form 0 (pointer+size without offset) is the grid above
+      uint64_t fl = ((form >> 1) << 1) | ((form & 1) ? 8 : 0);
+      for (uint64_t acc = A_PGETV; acc <= A_GET_T; acc++) {
+        if (!e.mine(idx++)) continue;
+        bool text = (acc == A_PGET_CSTR || acc == A_GET_LINE || acc == A_GET_CSTR || acc == A_SKIP_IF);
+        for (uint64_t off : rs)
+          for (uint64_t size : rs) {
+            Case c("pos");
+            c.N(n).N(n * 37 + acc + form * 101).N((text ? 1 : 0) | fl);
+            if (acc <= A_PGET_T) c.N(acc).N(off).N(size);
+            else c.N(A_GO).N(off).N(0).N(acc).N(size).N(1);
+            e.exec(c);
+          }
+      }
+      for (unsigned k = 0; k < kTypedCount; k++) {
+        if (!e.mine(idx++)) continue;
+        for (uint64_t off : rs) {
+          e.exec(Case("pos").N(n).N(n * 131 + k + form).N(fl).N(A_TYPED_PGET + k).N(off).N(0));
+          e.exec(Case("pos").N(n).N(n * 131 + k + form).N(fl).N(A_GO).N(off).N(0).N(A_TYPED_GET + k).N(1).N(0));
+        }
+      }
+    }
+  }
+  // sub-readers of sub-readers: both levels over every (offset, size) in 0..n+1, every pair of the four sub forms, three constructors
+  for (uint64_t n = 0; n <= 4 && !e.stop; n++) {
+    for (uint64_t ctor = 0; ctor < 3; ctor++)
+      for (uint64_t off1 = 0; off1 <= n + 1; off1++) {
+        if (!e.mine(idx++)) continue;
+        for (uint64_t size1 = 0; size1 <= n + 1; size1++)
+          for (uint64_t f1 = 0; f1 < 4; f1++)
+            for (uint64_t off2 = 0; off2 <= n + 1; off2++)
+              for (uint64_t size2 = 0; size2 <= n + 1; size2++)
+                for (uint64_t f2 = 0; f2 < 4; f2++)
+                  e.exec(Case("pos").N(n).N(n * 41 + off1 * 7 + size1).N(ctor << 1).N(A_DESCEND + f1).N(off1).N(size1).N(A_DESCEND + f2).N(off2).N(size2));
+      }
+  }
   e.complete(cat("buffer lengths ", e.thorough() ? "0..16, 63, 64" : "0..8", " x every accessor (27 offset/size accessors, 26 typed pget_*, 26 typed get_* with and without advance) x all pairs "
-                                                                                  "(offset, size) of the boundary set {0,1,2,3,4,6,8,n-2..n+2,2^31,2^32-1,2^32,2^63-1,2^63,2^63+1,2^64-9..2^64-1}"));
+                                                                                  "(offset, size) of the boundary set {0,1,2,3,4,6,8,n-2..n+2,2^31,2^32-1,2^32,2^63-1,2^63,2^63+1,2^64-9..2^64-1} on a reader built from (pointer, size); "
+                                                                                  "lengths 0..8 x the five other constructor forms ((pointer,size,offset), const std::string& and shared_ptr<string> with and without offset) x every accessor x "
+                                                                                  "all pairs of {0,1,n-1,n,n+1,2^64-1}; lengths 0..4 x three constructors x sub-reader of a sub-reader: every pair of the four sub/subx forms x every "
+                                                                                  "(offset, size) in 0..n+1 at both levels"));
 }
 
 static void enum_bw(Enum& e) {
